@@ -1,9 +1,14 @@
 /-
-YSON (C18): the textual pre-pass of `Unmarshal` as it was on the pinned tree, BEFORE
-/repo commit 0cf3884e ("leave string literals alone when rewriting YSON type
-constructors").  Kept only so that the repaired defect stays documented by a
-kernel-evaluated witness (`Props/C18.lean`: `prepass_v0_in_string_witness`,
-`dedup_empty_v0_witness`); nothing else refers to it.  Core Lean only.
+YSON (C18): pieces of `Unmarshal` as they were on the pinned tree, kept only so that the
+repaired defects stay documented by kernel-evaluated witnesses in `Props/C18.lean`; nothing
+else refers to them.  Core Lean only.
+* `V0`: the textual pre-pass BEFORE /repo commit 0cf3884e ("leave string literals alone
+  when rewriting YSON type constructors") – `prepass_v0_in_string_witness`,
+  `dedup_empty_v0_witness`.
+* `V0Float`: the tree-level parser BEFORE the UseNumber fix: numbers decoded as float64
+  (`int64(raw["value"].(float64))`, exact integer arithmetic: round to nearest even, 53
+  bits; out-of-range conversions give the amd64 result) and unchecked type assertions that
+  panic – `long_precision_v0_witness`, `type_member_panic_v0_witness`.
 -/
 import YorkieModel.Model.YsonText
 namespace Yorkie.Yson.V0
@@ -68,3 +73,249 @@ def parse (wantObj : Bool) (text : Str) : Res Yson :=
 def roundTrip (v : Yson) : Res Yson := parse v.isObj (marshal v)
 
 end Yorkie.Yson.V0
+
+namespace Yorkie.Yson.V0Float
+open Yorkie.Yson
+
+/-- round a natural to the nearest float64 (53-bit significand, ties to even); the
+result is again a natural (no overflow below 2^1024, far above int64) -/
+def roundF64 (n : Nat) : Nat :=
+  if n < 2 ^ 53 then n else
+  let sh := Nat.log2 n - 52
+  let q := n >>> sh
+  let r := n % 2 ^ sh
+  let half := 2 ^ (sh - 1)
+  let q' := if r > half || (r == half && q % 2 == 1) then q + 1 else q
+  q' <<< sh
+
+/-- Go `int64(f)` on amd64 (CVTTSD2SQ): truncation, out of range ⇒ MinInt64.
+`neg`/`m`: sign and integral part of the (already rounded) double. -/
+def toI64 (neg : Bool) (m : Nat) : Int :=
+  if neg then (if m ≤ 2 ^ 63 then -(m : Int) else -(2 ^ 63 : Int))
+  else (if m < 2 ^ 63 then (m : Int) else -(2 ^ 63 : Int))
+
+/-- Go `int32(f)` on amd64 (CVTTSD2SL): truncation, out of range ⇒ MinInt32 -/
+def toI32 (neg : Bool) (m : Nat) : Int :=
+  if neg then (if m ≤ 2 ^ 31 then -(m : Int) else -(2 ^ 31 : Int))
+  else (if m < 2 ^ 31 then (m : Int) else -(2 ^ 31 : Int))
+
+/-- `int64(float64(i))` for an integer literal `i` read by encoding/json -/
+def i64OfInt (i : Int) : Int := toI64 (decide (i < 0)) (roundF64 i.natAbs)
+def i32OfInt (i : Int) : Int := toI32 (decide (i < 0)) (roundF64 i.natAbs)
+
+/-- parse a JSON number literal into (neg, mantissa, exp10): value = ±mantissa·10^exp10.
+Assumes the literal is well formed (it was accepted by the JSON scanner). -/
+def decOfText (t : Str) : Bool × Nat × Int :=
+  let (neg, t) := match t with
+    | 45 :: r => (true, r)
+    | _ => (false, t)
+  let (ip, t) := takeDigits t
+  let (fp, t) := match t with
+    | 46 :: r => takeDigits r
+    | _ => ([], t)
+  let e : Int := match t with
+    | c :: r =>
+      if c == 101 || c == 69 then
+        match r with
+        | 43 :: r' => (digitsVal (takeDigits r').1 0 : Int)
+        | 45 :: r' => -(digitsVal (takeDigits r').1 0 : Int)
+        | _ => (digitsVal (takeDigits r).1 0 : Int)
+      else 0
+    | [] => 0
+  (neg, digitsVal (ip ++ fp) 0, e - fp.length)
+
+/-- integral part of the float64 nearest to p/q (q > 0), round-half-even, with
+subnormals; `none` = the double is ±Inf or too large for any integer type. -/
+def ratToF64Trunc (p q : Nat) : Option Nat :=
+  if p == 0 then some 0 else
+  -- first guess of e with 2^52 ≤ p / (q·2^e) < 2^53
+  let e0 : Int := (Nat.log2 p : Int) - (Nat.log2 q : Int) - 52
+  let scaled (e : Int) : Nat × Nat :=   -- p/(q·2^e) as a fraction
+    if e ≥ 0 then (p, q * 2 ^ e.toNat) else (p * 2 ^ (-e).toNat, q)
+  let e1 : Int :=
+    let (a, b) := scaled e0
+    if a / b < 2 ^ 52 then e0 - 1 else if a / b ≥ 2 ^ 53 then e0 + 1 else e0
+  let e : Int := if e1 < -1074 then -1074 else e1
+  if e > 971 then none else
+  let (a, b) := scaled e
+  let m0 := a / b
+  let r := a % b
+  let m := if 2 * r > b || (2 * r == b && m0 % 2 == 1) then m0 + 1 else m0
+  if e ≥ 0 then (if e > 80 then none else some (m * 2 ^ e.toNat)) else some (m / 2 ^ (-e).toNat)
+
+def decToF64Trunc (t : Str) : Bool × Option Nat :=
+  let (neg, m, e) := decOfText t
+  (neg, if e ≥ 0 then (if e > 400 then (if m == 0 then some 0 else none) else ratToF64Trunc (m * 10 ^ e.toNat) 1)
+        else (if e < -800 then some 0 else ratToF64Trunc m (10 ^ (-e).toNat)))
+
+def tokToI64 : NumTok → Int
+  | .int i => i64OfInt i
+  | .other t => match decToF64Trunc t with
+    | (neg, some m) => toI64 neg m
+    | (_, none) => -(2 ^ 63 : Int)
+
+def tokToI32 : NumTok → Int
+  | .int i => i32OfInt i
+  | .other t => match decToF64Trunc t with
+    | (neg, some m) => toI32 neg m
+    | (_, none) => -(2 ^ 31 : Int)
+
+/-- `x.(float64)` without ok: panics -/
+def asNum (j : J) : Res NumTok :=
+  match j with
+  | .num n => .ok n
+  | j => .panic j.ty .float64
+
+/-- `x.(string)` without ok: panics -/
+def asStr (j : J) : Res Str :=
+  match j with
+  | .str s => .ok s
+  | j => .panic j.ty .string
+
+/-- `attrs[k] = v.(string)` for every member -/
+def parseAttrs : List (Str × J) → Res Attrs
+  | [] => .ok []
+  | (k, v) :: r => (asStr v).bind fun s => (parseAttrs r).bind fun rest => .ok ((k, s) :: rest)
+
+/-- parseCounter -/
+def parseCounter (raw : List (Str × J)) : Res Counter :=
+  match J.get raw sValue with
+  | .obj value =>
+    match J.getStr? value sType with
+    | some t =>
+      if t == sInt then (asNum (J.get value sValue)).bind fun n => .ok (.int (tokToI32 n))
+      else if t == sLong then (asNum (J.get value sValue)).bind fun n => .ok (.long (tokToI64 n))
+      else .err .counterType
+    | none => .err .counterType
+  | _ => .err .counterValue
+
+/-- parseDedupCounter -/
+def parseDedupCounter (raw : List (Str × J)) : Res Counter :=
+  match J.getStr? raw sCounterType with
+  | none => .err .dedupType
+  | some ct =>
+    match J.getStr? raw sHll with
+    | none => .err .dedupHll
+    | some hll =>
+      match b64Decode hll with
+      | none => .err .dedupHllInvalid
+      | some regs =>
+        if ct == sInt then
+          match J.get raw sValue with
+          | .num n => .ok (.dedup (tokToI32 n) regs)
+          | _ => .err .dedupValue
+        else .err .dedupType
+
+/-- one element of parseText's loop -/
+def parseTextNode (node : J) : Res TextNode :=
+  match node with
+  | .obj n =>
+    match J.getStr? n sVal with
+    | none => .err .parseTextValue
+    | some val =>
+      match J.get n sAttrs with
+      | .obj attrs => (parseAttrs attrs).bind fun a => .ok ⟨val, a⟩
+      | _ => .ok ⟨val, []⟩
+  | j => .panic j.ty .map
+
+def parseText : List J → Res (List TextNode)
+  | [] => .ok []
+  | x :: r => (parseTextNode x).bind fun n => (parseText r).bind fun ns => .ok (n :: ns)
+
+/-- `raw["attrs"].(map[string]interface{})` then the string assertions -/
+def treeAttrsIn (raw : List (Str × J)) : Res Attrs :=
+  match J.get raw sAttrs with
+  | .obj attrs => parseAttrs attrs
+  | _ => .ok []
+
+mutual
+/-- parseTreeNode on `child.(map[string]interface{})` -/
+def parseTreeNode : J → Res TreeNode
+  | .obj raw =>
+    let ty := (J.getStr? raw sType).getD sRoot
+    let value := (J.getStr? raw sValue).getD []
+    (treeAttrsIn raw).bind fun attrs =>
+    (treeChildrenIn raw).bind fun children => .ok (.mk ty value attrs children)
+  | .null => .panic .nil .map
+  | .bool _ => .panic .bool .map
+  | .num _ => .panic .float64 .map
+  | .str _ => .panic .string .map
+  | .arr _ => .panic .slice .map
+/-- `raw["children"].([]interface{})` and the loop over it -/
+def treeChildrenIn : List (Str × J) → Res (List TreeNode)
+  | [] => .ok []
+  | (k, v) :: r =>
+    if k == sChildren then
+      match v with
+      | .arr xs => parseTreeList xs
+      | _ => .ok []
+    else treeChildrenIn r
+def parseTreeList : List J → Res (List TreeNode)
+  | [] => .ok []
+  | x :: r => (parseTreeNode x).bind fun n => (parseTreeList r).bind fun ns => .ok (n :: ns)
+end
+
+/-- parseTypedValue (the caller has checked that `raw["type"]` is the string `t`) -/
+def parseTypedValue (raw : List (Str × J)) (t : Str) : Res Yson :=
+  if t == sInt then (asNum (J.get raw sValue)).bind fun n => .ok (.int (tokToI32 n))
+  else if t == sLong then (asNum (J.get raw sValue)).bind fun n => .ok (.long (tokToI64 n))
+  else if t == sBinData then
+    (asStr (J.get raw sValue)).bind fun s =>
+      match b64Decode s with
+      | some b => .ok (.bytes b)
+      | none => .err .parseBinData
+  else if t == sDate then
+    (asStr (J.get raw sValue)).bind fun s => if dateValid s then .ok (.date s) else .err .parseDate
+  else if t == sCounter then (parseCounter raw).map .counter
+  else if t == sDedupCounter then (parseDedupCounter raw).map .counter
+  else if t == sTree then
+    match J.get raw sValue with
+    | .obj v => (parseTreeNode (.obj v)).map .tree
+    | _ => .err .parseCounterSic
+  else if t == sTextW then
+    match J.get raw sValue with
+    | .arr v => (parseText v).map .text
+    | _ => .err .parseText
+  else .err .unsupported
+
+mutual
+/-- the `switch v := v.(type)` shared by parseObject and parseArray -/
+def parseMember : J → Res Yson
+  | .obj kvs =>
+    match J.getStr? kvs sType with
+    | some t => parseTypedValue kvs t
+    | none => (parseObject kvs).map .obj
+  | .arr xs => (parseArray xs).map .arr
+  | .null => .ok .null
+  | .bool b => .ok (.bool b)
+  | .num n => .ok (.double (.fin n.text))
+  | .str s => .ok (.str s)
+def parseObject : List (Str × J) → Res (List (Str × Yson))
+  | [] => .ok []
+  | (k, v) :: r => (parseMember v).bind fun y => (parseObject r).bind fun ys => .ok ((k, y) :: ys)
+def parseArray : List J → Res (List Yson)
+  | [] => .ok []
+  | x :: r => (parseMember x).bind fun y => (parseArray r).bind fun ys => .ok (y :: ys)
+end
+
+/-- the `switch e := elem.(type)` of `Unmarshal` for `*Object` / `*Array` targets:
+the target kind is the kind of the value that was marshalled -/
+def fromJRoot (wantObj : Bool) (raw : J) : Res Yson :=
+  if wantObj then
+    match raw with
+    | .obj kvs => (parseObject kvs).map .obj
+    | _ => .err .unmarshalObject
+  else
+    match raw with
+    | .arr xs => (parseArray xs).map .arr
+    | _ => .err .unmarshalArray
+
+def parse (wantObj : Bool) (text : Str) : Res Yson :=
+  match jsonParse (preprocess text) with
+  | none => .err .unmarshalJSON
+  | some j => fromJRoot wantObj j
+
+/-- `Unmarshal(v.Marshal())` with the current pre-pass and the float64 / unchecked parser -/
+def roundTrip (v : Yson) : Res Yson := parse v.isObj (marshal v)
+
+end Yorkie.Yson.V0Float
